@@ -274,6 +274,7 @@ var (
 		Time.RFC1123,
 	}
 	matchDateTimeZone = regexp.MustCompile(`^(.*\d)(?:(Z)|([\+\-]\d{2}):([0-5]\d))$`)
+	matchEndOfDay     = regexp.MustCompile(`^[^T]*T(24):00(?::00(?:\.0+)?)?(?:[Z\+\-].*)?$`)
 )
 
 // dateParse returns the epoch of the parsed date.
@@ -281,6 +282,14 @@ func dateParse(date string) float64 {
 	// YYYY-MM-DDTHH:mm:ss.sssZ
 	var time Time.Time
 	var err error
+
+	// 15.9.1.15: 24:00:00 is midnight at the end of the day; time.Parse only
+	// knows hours 00-23, so parse 00:00:00 and add the day afterwards.
+	endOfDay := 0
+	if match := matchEndOfDay.FindStringSubmatchIndex(date); match != nil {
+		date = date[:match[2]] + "00" + date[match[3]:]
+		endOfDay = 1
+	}
 
 	if match := matchDateTimeZone.FindStringSubmatch(date); match != nil {
 		if match[2] == "Z" {
@@ -315,7 +324,7 @@ func dateParse(date string) float64 {
 		return math.NaN()
 	}
 
-	epoch := float64(time.UTC().AddDate(shift, 0, 0).UnixMilli())
+	epoch := float64(time.UTC().AddDate(shift, 0, endOfDay).UnixMilli())
 	if math.Abs(epoch) > maxTimeValue {
 		return math.NaN()
 	}
